@@ -326,6 +326,55 @@ def fam_lineno(rng):
     return rs, cfg, gen
 
 
+def fam_scbol(rng):
+    """start conditions and ^: two to four conditions, exclusive and inclusive ones in either order of declaration, half the
+    rules anchored, most of them without a start condition; actions switch condition all the time and the input has a
+    newline every other character - an unscoped ^ rule is active in every inclusive condition, wherever it was declared (C05)"""
+    rs = rules.gen_ruleset(rng, p_trail=0.0, p_sc=0.0, p_bol=0.5)
+    n = rng.choice([1, 2, 3])
+    excl = [rng.random() < 0.5 for _ in range(n)]
+    if n >= 2 and rng.random() < 0.6:
+        excl[0], excl[1] = True, False           # an inclusive condition declared after an exclusive one
+    for k in range(n):
+        rs.scs.append(('SC%d' % (k + 1), excl[k]))
+    for r in rs.rules:
+        x = rng.random()
+        if x < 0.25:
+            r['scs'] = sorted(rng.sample(range(len(rs.scs)), rng.randrange(1, len(rs.scs) + 1)))
+        elif x < 0.32:
+            r['all'] = True
+    cfg = rt.Config(backend=_backend(rng, cxx=True), topt=rng.choice(TOPTS), interactive=rng.choice([None, False]), stack=rng.random() < 0.4)
+    inner = _ops_case(kinds=['begin', 'begin', 'return'] + (['push', 'pop'] if cfg.stack else []))
+
+    def gen(rng, rs, cfg):
+        c = inner(rng, rs, cfg)
+        c['srcs'] = [[10 if rng.random() < 0.4 else b for b in w] for w in c['srcs']]
+        nsc = len(rs.scs)
+        for k in range(0, 80):
+            if k not in c['acts'] and rng.random() < 0.5:
+                c['acts'][k] = ['begin:%d' % rng.randrange(nsc)]
+        return c
+    gen.small = inner.small
+    return rs, cfg, gen
+
+
+def fam_stdioint(rng):
+    """the built-in input routine on a stream that is treated as a terminal (%option always-interactive): it reads with getc()
+    up to the next newline.  Inputs are rich in the bytes a careless reader confuses with EOF or a terminator (0xFF, NUL,
+    newline); the tokens must be those of the same bytes delivered any other way (C03, C04)"""
+    rs = rules.gen_ruleset(rng, p_trail=0.0)
+    cfg = rt.Config(backend=rng.choice(['nr', 'nr', 'r', 'c99']), topt=rng.choice(TOPTS), interactive=rng.choice([None, True]), stdio=True,
+                    array=rng.random() < 0.3)
+    cfg.always_interactive = True
+
+    def gen(rng, rs, cfg):
+        c = _basic_case(rng, rs, cfg)
+        c['srcs'] = [[(255 if rng.random() < 0.12 else 10 if rng.random() < 0.08 else b) for b in w] for w in c['srcs']]
+        return c
+    gen.small = getattr(_basic_case, 'small', True)
+    return rs, cfg, gen
+
+
 def fam_switchwrap(rng):
     """an include done by *switching*: an action leaves the current buffer for an in-memory one (yy_scan_bytes /
     yy_scan_string), and when that ends yywrap() switches back to the buffer that was left and returns 0 - scanning must
@@ -641,5 +690,5 @@ def fam_sertrail(rng):
     return rs, cfg, _ops_case(kinds=['less', 'return'] + (['reject'] if rej else []), small=not rej)
 
 
-FAMILIES = {'switchwrap': fam_switchwrap, 'memmore': fam_memmore, 'inputbol': fam_inputbol, 'sertrail': fam_sertrail, 'buffers': fam_buffers, 'include': fam_include, 'plain': fam_plain, 'ops': fam_ops, 'unput': fam_unput, 'reject': fam_reject,
+FAMILIES = {'scbol': fam_scbol, 'stdioint': fam_stdioint, 'switchwrap': fam_switchwrap, 'memmore': fam_memmore, 'inputbol': fam_inputbol, 'sertrail': fam_sertrail, 'buffers': fam_buffers, 'include': fam_include, 'plain': fam_plain, 'ops': fam_ops, 'unput': fam_unput, 'reject': fam_reject,
             'lineno': fam_lineno, 'trail': fam_trail, 'eof': fam_eof, 'deepstack': fam_deepstack, 'reads': fam_reads, 'bufreq': fam_bufreq, 'arraymore': fam_arraymore, 'wrapbol': fam_wrapbol}
